@@ -223,6 +223,9 @@ def run_signal(case):
             pre["d1"] = ocp.der(pb)
             if d >= 2:
                 pre["d2"] = ocp.der(pre["d1"])
+            if meth == "Spline" and width == 1:
+                # explicit time AND a signal in one expression: d/dt (t s^2) = s^2 + 2 t s s'
+                pre["dmix"] = ocp.der(ocp.t * pb[0] * pb[0])
         except Exception as e:
             vios.append(dict(sig="exception:der:signal", tags=tags, detail="der of a B-spline parameter raised %s: %s" % (type(e).__name__, str(e)[:150])))
     try:
@@ -244,6 +247,7 @@ def run_signal(case):
         exprs = [("value", pb, 0)] if pb is not None else []
         if "d1" in pre: exprs.append(("der", pre["d1"], 1))
         if "d2" in pre: exprs.append(("der2", pre["d2"], 2))
+        if "dmix" in pre: exprs.append(("der_mixed", pre["dmix"], "mix"))
         if d == 0 and pb is not None:
             raised = False
             try:
@@ -267,10 +271,16 @@ def run_signal(case):
                         raise
                     vios.append(dict(sig="exception:sample:%s:%s" % (name, fr or type(ex).__name__), tags=tags + ["grid=%s" % gtag], detail="%s: %s" % (type(ex).__name__, str(ex)[:160])))
                     continue
-                want = sp(ts, nu)
+                if nu == "mix":
+                    s0 = sp(ts, 0); s1 = sp(ts, 1)
+                    want = s0 * s0 + 2 * ts.reshape(1, -1) * s0 * s1
+                    nuo = 1
+                else:
+                    want = sp(ts, nu)
+                    nuo = nu
                 # derivative of a spline is discontinuous at breakpoints for low degree: compare away from ambiguous points
                 mask = np.ones(len(ts), dtype=bool)
-                if nu >= d - 0 and nu > 0 or d == 0:
+                if nuo >= d - 0 and nuo > 0 or d == 0:
                     for j, tv in enumerate(ts):
                         if np.min(np.abs(xi - tv)) < 1e-12:
                             mask[j] = False
